@@ -248,6 +248,16 @@ func CallDepthExceeded(maxDepth int) *RuntimeError {
 	}
 }
 
+// EvalDepthExceeded - expressions and calls are nested deeper than can be evaluated (deep
+// nesting inside every level of a deep recursion)
+func EvalDepthExceeded(maxDepth int) *RuntimeError {
+	return &RuntimeError{
+		Code:    ErrCallDepthExceeded,
+		Message: fmt.Sprintf("表达式与方法调用的嵌套层数超过了上限（%d 层）", maxDepth),
+		Extra:   nil,
+	}
+}
+
 // Internal Error Class, for Zn Internal exception (rare to happen)
 // e.g. Unexpected switch-case
 
